@@ -44,6 +44,15 @@ def run(chk, repo):
     percpu(chk, repo)
     decoders(chk, repo)
     values(chk, repo)
+    # what the program reads is the value that was stored: loads of signed
+    # formats are sign-extended, also after a byte swap (shared with C01)
+    from ..dsl import Ctx as _Dsl
+    from . import c01 as _c01
+    chk.doc("R01.5", "sign extension of loads and byte-swapped loads (shared "
+                     "with C01)")
+    _d = _Dsl(repo)
+    _c01.r5_signext(chk, repo, _d)
+    _c01.r5_endian(chk, repo, _d)
     # how many per-CPU values there are (shared with C10): the reader's
     # index range and stride
     from . import c10
